@@ -414,8 +414,13 @@ func runCheck(cmd, prop, tier string, seed int, only, dump string, verbose bool)
 		data, _ := json.MarshalIndent(map[string]any{"property": prop, "claimed": claimed}, "", " ")
 		os.WriteFile(filepath.Join(verifRoot, "claims", prop+".json"), data, 0o644)
 		fmt.Printf("claimed %d of %d clauses for %s\n", len(claimed), len(order), prop)
+		shown := 0
 		for _, k := range order {
 			if clauses[k].cs.Status != "discharged" {
+				shown++
+				if shown > 30 {
+					continue
+				}
 				fmt.Printf("  unclaimed: %s [%s] %s %s\n", k, clauses[k].cs.Status, clauses[k].cs.Desc, clauses[k].cs.Pos)
 				if verbose && clauses[k].worst != nil && clauses[k].worst.Model != nil {
 					fmt.Printf("      model: %v\n", clauses[k].worst.Model)
